@@ -105,16 +105,74 @@ def rule_lz77_window(ctx):
         ctx.bad(rid, "distance-clamp", "the LZ77 distance is not clamped to the window size 2^20 - 1", fn=f)
 
 
+def rule_single_token(ctx):
+    """the repeated-single-token shortcut is only offered when no LZ77 window has to be maintained"""
+    from ..mirutil import const_walk
+    from ..facts import op_place
+    rid = "R-LZ77-SHORTCUT"
+    ctx.rule(rid, "Decoder::single_token lets callers skip every read of a cluster that can only produce one token.  With LZ77 enabled the "
+                  "skipped symbols would never enter the copy window (nor the decoded-symbol count), so a later copy reaching back into "
+                  "them copies the wrong values: with the `lz77` field fixed to the Enabled variant, no path through single_token may "
+                  "produce anything but None (constant propagation on MIR; calls that return an Option are treated as possibly Some)")
+    cr = ctx.prog.crate("jxl_coding")
+    f = cr.fn("jxl_coding::Decoder::single_token")
+    adt = next((a for k, a in cr.adts.items() if k.endswith("::Lz77")), None)
+    if f is None or adt is None:
+        ctx.anchor_missing(rid, "jxl_coding::Decoder::single_token / Lz77")
+        return
+    ctx.seen(f)
+    enabled = next((i for i, v in enumerate(adt["variants"]) if v["name"] == "Enabled"), None)
+    if enabled is None:
+        ctx.anchor_missing(rid, "Lz77::Enabled")
+        return
+
+    def last_field(p):
+        fl = [e for e in p[1:] if isinstance(e, list) and e[0] == "."]
+        return fl[-1][2] if fl else None
+
+    seen_discr = [False]
+
+    def discr(p):
+        if last_field(p) == "lz77" or (len(p) >= 1 and "Lz77" in f.local_ty(p[0]) and not [e for e in p[1:] if isinstance(e, list) and e[0] == "."]):
+            seen_discr[0] = True
+            return enabled
+        return None
+
+    some_at = []
+
+    def on_term(bb, t, e, val_of):
+        for st in f.stmts(bb):
+            if st[0] != "=" or st[1] != [0]:
+                continue
+            rv = st[2]
+            if rv[0] == "agg" and rv[1][0] == "adt" and rv[1][1] == "core::option::Option" and rv[1][2] == "None":
+                continue
+            some_at.append((bb, st[3]))
+        if t[0] == "call" and t[3] == [0]:
+            some_at.append((bb, t[-2]))
+
+    const_walk(f, 0, {}, on_term, discr=discr)
+    if not seen_discr[0]:
+        ctx.bad(rid, "shortcut-ignores-lz77", "Decoder::single_token no longer looks at the LZ77 mode before offering the shortcut", fn=f)
+    elif some_at:
+        ctx.bad(rid, "shortcut-with-lz77", "Decoder::single_token can answer Some(token) while LZ77 is enabled: callers then skip the reads of that "
+                "cluster, the skipped symbols never enter the LZ77 window, and a later copy that reaches back into them is wrong",
+                fn=f, pos=some_at[0][1])
+    else:
+        ctx.ok(rid, "shortcut-off-with-lz77", "with lz77 = Enabled every path returns None", nontrivial=True, fn=f)
+
+
 def main(pid, tier, repo=None):
     ctx = Ctx(pid, tier, configs=("workspace",), repo=repo)
     specconst.run(ctx, pid, floor=2)
     rule_checks(ctx)
     rule_lz77_window(ctx)
+    rule_single_token(ctx)
     ctx.not_decided("that decoding returns exactly the encoded sequence and consumes exactly the encoded bits for every distribution set "
                     "(alias table construction, two-level prefix tables, hybrid-integer expansion, RLE / single-token shortcuts): value-level")
     return ctx.finish(
         "Claimed narrowly: three structural necessary conditions. The format's tables used by the entropy decoder (LZ77 special distances, "
         "code-length order) have the specified values (rustc-evaluated constants vs references transcribed from the standards); the "
         "acceptance checks named by the property (ANS final state 0x130000, complete prefix codes, distribution sums, cluster holes, "
-        "Lehmer digits) exist as compare->error; the LZ77 window constants agree between writer, reader and distance clamp. Round-trip "
-        "equality is not decided.")
+        "Lehmer digits) exist as compare->error; the LZ77 window constants agree between writer, reader and distance clamp; the single-token shortcut is "
+        "never offered while LZ77 is enabled (R-LZ77-SHORTCUT). Round-trip equality is not decided.")
